@@ -38,6 +38,8 @@ fn summary(eng: &Engine, em_lines: usize, extra: &str) -> String {
     s += &format!("\"geom\":[{},{}],", llfree::HUGE_ORDER, llfree::TREE_HUGE);
     s += &format!("\"lines\":{em_lines},");
     s += &format!("\"panics\":{},", eng.panics);
+    s += &format!("\"guard_hits\":{},\"guarded_buffers\":{},", common::GUARD_HITS.load(std::sync::atomic::Ordering::Relaxed),
+        common::BUFS_CREATED.load(std::sync::atomic::Ordering::Relaxed));
     s += &format!("\"distinct_signatures\":{},", eng.cov.sigs.len());
     let m = |m: &std::collections::BTreeMap<String, usize>| {
         m.iter().map(|(k, v)| format!("{}:{v}", jstr(k))).collect::<Vec<_>>().join(",")
@@ -65,7 +67,20 @@ fn summary(eng: &Engine, em_lines: usize, extra: &str) -> String {
     s
 }
 
+extern "C" fn on_segv(_sig: libc::c_int) {
+    // async-signal-safe: one write, then exit with a status the checker recognises (C18)
+    let msg = b"C18-GUARD: SIGSEGV/SIGBUS - access outside a metadata buffer (guard page hit)\n";
+    unsafe {
+        libc::write(2, msg.as_ptr().cast(), msg.len());
+        libc::_exit(77);
+    }
+}
+
 fn main() {
+    unsafe {
+        libc::signal(libc::SIGSEGV, on_segv as *const () as usize);
+        libc::signal(libc::SIGBUS, on_segv as *const () as usize);
+    }
     let args: Vec<String> = std::env::args().collect();
     let mode = args.get(1).map(|s| s.as_str()).unwrap_or("");
     // silence the default panic output: panics are captured and reported as answers
@@ -209,7 +224,9 @@ fn main() {
                 format!("{{\"prop\":\"{}\",\"line\":{},\"msg\":{},\"scenario\":[{}],\"schedule\":[{}]}}", v.prop, v.line, jstr(&v.msg),
                     sc.iter().map(|l| jstr(l)).collect::<Vec<_>>().join(","), sched.iter().map(|t| t.to_string()).collect::<Vec<_>>().join(","))
             }).collect();
-            println!("{{\"geom\":[{},{}],\"lines\":{},\"runs\":{},\"events\":{},\"crash_points\":{},\"freeze_runs\":{},\"max_solo_steps\":{},\"distinct_signatures\":{},\"known\":[{}],\"history_starts\":[{}],\"violations\":[{}]}}",
+            print!("{{\"guard_hits\":{},\"guarded_buffers\":{},", common::GUARD_HITS.load(std::sync::atomic::Ordering::Relaxed),
+                common::BUFS_CREATED.load(std::sync::atomic::Ordering::Relaxed));
+            println!("\"geom\":[{},{}],\"lines\":{},\"runs\":{},\"events\":{},\"crash_points\":{},\"freeze_runs\":{},\"max_solo_steps\":{},\"distinct_signatures\":{},\"known\":[{}],\"history_starts\":[{}],\"violations\":[{}]}}",
                 llfree::HUGE_ORDER, llfree::TREE_HUGE, ex.lines.len(), ex.runs, ex.events, ex.crash_points, ex.freeze_runs, ex.max_solo, ex.sigs.len(),
                 ex.known.iter().map(|k| jstr(k)).collect::<Vec<_>>().join(","),
                 ex.run_starts.iter().map(|s| s.to_string()).collect::<Vec<_>>().join(","), viol.join(","));
